@@ -1,6 +1,7 @@
 package main
 
 import (
+	"crypto/tls"
 	"fmt"
 	"io"
 	"net"
@@ -86,6 +87,7 @@ func runSys(toks []string) (string, string) {
 	secs := splitSections(toks[1:])
 	nconn := 1
 	var pw *string
+	var tlsState *tls.ConnectionState
 	for _, t := range secs[0] {
 		switch {
 		case strings.HasPrefix(t, "n="):
@@ -93,6 +95,9 @@ func runSys(toks []string) (string, string) {
 		case strings.HasPrefix(t, "pw="):
 			s := string(unhx(t[3:]))
 			pw = &s
+		case t == "tls":
+			// the connections are served the way connections of the TLS port are, after a completed handshake
+			tlsState = &tls.ConnectionState{HandshakeComplete: true}
 		}
 	}
 	sys := &sysRun{}
@@ -135,7 +140,7 @@ func runSys(toks []string) (string, string) {
 					panicked = fmt.Sprint(r)
 				}
 			}()
-			srv.VerifServeConn(conns[i], nil)
+			srv.VerifServeConn(conns[i], tlsState)
 		}(i)
 	}
 	// wait until every connection waits for its first request
